@@ -15,14 +15,14 @@ ASSUMPTIONS = ["index arithmetic does not overflow usize", "containers satisfy t
 
 def run(F, rep):
     rep.engines.update(["E2-BV", "E2-DT", "E1"])
-    common.kmer_floor(F, rep)
-    lemmas.dnastring_lemmas(F, rep, which={"get_kmer", "get"})
-    lemmas.lmer_lemmas(F, rep, which={"get_kmer", "get"})
-    common.run_kmer_lemmas(F, rep, {"slice", "ext", "get"})
-    dt_seq.kmer_iter_tables(F, rep, "C13.2")
-    dt_seq.accessor_tables(F, rep, "C13.4")
-    dt_seq.slice_view_tables(F, rep, "C13.6")
-    dt_seq.kmer_default_tables(F, rep, "C13.5")
-    lemmas.byte_container_lemmas(F, rep, "L-bytes")
+    rep.run(common.kmer_floor, F, rep)
+    rep.run(lemmas.dnastring_lemmas, F, rep, which={"get_kmer", "get"})
+    rep.run(lemmas.lmer_lemmas, F, rep, which={"get_kmer", "get"})
+    rep.run(common.run_kmer_lemmas, F, rep, {"slice", "ext", "get"})
+    rep.run(dt_seq.kmer_iter_tables, F, rep, "C13.2")
+    rep.run(dt_seq.accessor_tables, F, rep, "C13.4")
+    rep.run(dt_seq.slice_view_tables, F, rep, "C13.6")
+    rep.run(dt_seq.kmer_default_tables, F, rep, "C13.5")
+    rep.run(lemmas.byte_container_lemmas, F, rep, "L-bytes")
     for ty in common.kmer_type_names(F):
-        lemmas.kmer_default_lemmas(F, rep, ty, which={"from_bytes", "from_ascii", "bulk"}, rule="L-default")
+        rep.run(lemmas.kmer_default_lemmas, F, rep, ty, which={"from_bytes", "from_ascii", "bulk"}, rule="L-default")
